@@ -11,6 +11,7 @@ import random
 from vt.core import outcome, dev
 from vt.util import exc_sig
 from vt.refmodel import dip_ref_c15 as R
+from vt.refmodel import dip_ref_c16 as R16
 
 ID = 'C15'
 LEVEL = 'exploration'
@@ -53,9 +54,10 @@ _uid = [0]
 def setup():
     import warnings
     warnings.filterwarnings('ignore')
-    from scinumtools.dip import DIP
     from scinumtools.dip.settings import Format
     from vt.monitors.tables import Hygiene
+    R16.attach_parse_contract('record')       # C16 post-condition on every environment this workload gets back
+    from scinumtools.dip import DIP
     return dict(DIP=DIP, Format=Format, hyg=Hygiene(), steps=R.StepBudget(), keep=[])
 
 
@@ -269,11 +271,14 @@ def run_case(case, ctx):
     if A.model_invalid:
         return outcome(skip='generator produced a program outside the model: ' + A.model_invalid.split(' of ')[0])
     obs, keep = run_real(A.text, ctx)
-    mons = {'parses': 1, 'step_budget_guarded_parses': 1}
+    nev, pdevs = R16.drain_parse_deviations()
+    mons = {'parses': 1, 'step_budget_guarded_parses': 1, 'parse_postcondition_evaluations': nev}
     leak = ctx['hyg'].check_restore()
     if leak:
         mons['table_leaks_restored'] = 1
     devs = judge(A, obs)
+    for d in pdevs:
+        devs.append(dev('c16-postcondition:' + d['kind'], dict(node=d['node'], **d['detail']), known=d.get('known')))
     if A.mustfail is None:
         mons['strict_oracle_programs' if A.shape_free else 'taint_oracle_programs'] = 1
     else:
